@@ -414,7 +414,8 @@ pub fn run(args: &Args) {
                     let unordered = sid == 2;
                     let ssn = if unordered { 0 } else { let v = next_ssn[sid as usize]; next_ssn[sid as usize] += 1; v };
                     let nfrag = rng.range(1, 3) as usize;
-                    let (mr, exp) = match (k + m) % 4 { 0 => (Some(0u16), false), 1 => (Some(2), false), 2 => (None, true), _ => (None, false) };
+                    // reliability is a property of the channel: fixed per stream within a case
+                    let (mr, exp) = match (k + sid as usize) % 4 { 0 => (Some(0u16), false), 1 => (Some(2), false), 2 => (None, true), _ => (None, false) };
                     let tc = *rng.pick(&[1u32, 1, 2, 3, 4]);
                     for f in 0..nfrag {
                         let flags = (if unordered { 4 } else { 0 }) | (if f == 0 { 2 } else { 0 }) | (if f == nfrag - 1 { 1 } else { 0 });
